@@ -1015,4 +1015,70 @@ theorem motion_relative_swap (m1 m2 : Motion3 K) (e1 e2 : Iso3 K)
   iso3_invMul_swap sq _ _ h1 h2
 
 
+/-! ## Part 9 — the world-frame meaning of `query::intersection_test` on two boxes -/
+
+/-- `pos1⁻¹·pos2` acts as `pos2` followed by `pos1⁻¹` (2-D) -/
+private theorem iso2_invMul_act (p1 p2 : Iso2 K) (y : V2 K) (h1 : Unit2 p1) :
+    letI := fieldNum K sq
+    (p1.invMul p2).act y = p1.invAct (p2.act y) := by
+  obtain ⟨c, s, ax, ay⟩ := p1; obtain ⟨c', s', bx, by'⟩ := p2; obtain ⟨x, y⟩ := y
+  simp only [Unit2, Iso2.invMul, Iso2.act, Iso2.invAct, Iso2.invRot, Iso2.rot, V2.add, V2.sub, V2.mk.injEq] at h1 ⊢
+  constructor <;> ring
+
+open Model.CC in
+/-- **World-frame specification of `query::intersection_test` on two rectangles** (dim2): the free function answers
+`true` iff some world point lies in both posed rectangles.  The right-hand side is manifestly symmetric in the two
+shapes and invariant under a common isometry of both poses — the semantic reason for the swap and frame theorems. -/
+theorem queryIntersectionTest2_iff_world (he1 he2 : V2 K) (p1 p2 : Iso2 K) (h1 : Unit2 p1) (h2 : Unit2 p2)
+    (h1x : 0 ≤ he1.x) (h1y : 0 ≤ he1.y) (h2x : 0 ≤ he2.x) (h2y : 0 ≤ he2.y) :
+    letI := fieldNum K sq
+    queryScalar2 (fun m => intersectionTestCuboidCuboid2 m he1 he2) p1 p2 = true ↔
+      ∃ w : V2 K, Cuboid2.Mem ⟨he1⟩ (p1.invAct w) ∧ Cuboid2.Mem ⟨he2⟩ (p2.invAct w) := by
+  have hu : Unit2 (@Iso2.invMul K (fieldNum K sq) p1 p2) := (iso2_inverse_inverse sq p1 p2 h1 h2).2.2.2
+  show @intersectionTestCuboidCuboid2 K (fieldNum K sq) (@Iso2.invMul K (fieldNum K sq) p1 p2) he1 he2 = true ↔ _
+  rw [intersectionTestCuboidCuboid2_true_iff sq _ he1 he2 hu h1x h1y h2x h2y]
+  unfold RectsMeet
+  constructor
+  · rintro ⟨y, hy, hx⟩
+    refine ⟨@Iso2.act K (fieldNum K sq) p2 y, ?_, ?_⟩
+    · rw [← iso2_invMul_act sq p1 p2 y h1]; exact hx
+    · rw [(iso2_inverse_act sq p2 y h2).2.2.1]; exact hy
+  · rintro ⟨w, hw1, hw2⟩
+    refine ⟨@Iso2.invAct K (fieldNum K sq) p2 w, hw2, ?_⟩
+    rw [iso2_invMul_act sq p1 p2 _ h1, (iso2_inverse_act sq p2 w h2).2.2.2]; exact hw1
+
+example : Unit2 (⟨3/5, 4/5, ⟨1, -2⟩⟩ : Iso2 ℚ) ∧ Unit2 (⟨0, 1, ⟨5, 0⟩⟩ : Iso2 ℚ) := by unfold Unit2; norm_num
+
+/-- `pos1⁻¹·pos2` acts as `pos2` followed by `pos1⁻¹` (3-D) -/
+private theorem iso3_invMul_act (p1 p2 : Iso3 K) (y : V3 K) (h1 : Unit3 p1) (h2 : Unit3 p2) :
+    letI := fieldNum K sq
+    (p1.invMul p2).act y = p1.invAct (p2.act y) := by
+  rw [iso3_invMul_eq_inverse_mul, (iso3_mul_act sq _ p2 y (unit3_inverse sq p1 h1) h2).1, iso3_invAct_eq_inverse_act]
+
+open Model.CC in
+/-- **World-frame specification of `query::intersection_test` on two cuboids** (dim3), under the hypotheses of
+`intersectionTestCuboidCuboid_true_iff` for `pos12 = pos1⁻¹·pos2`: the free function answers `true` iff some world
+point lies in both posed cuboids. -/
+theorem queryIntersectionTest_cuboids_iff_world (he1 he2 : V3 K) (p1 p2 : Iso3 K) (h1 : Unit3 p1) (h2 : Unit3 p2)
+    (hs : LawfulSqrt sq) (hh1 : ∀ k, 0 ≤ comp he1 k) (hh2 : ∀ l, 0 ≤ comp he2 l)
+    (hgen : ∀ a ∈ @satEdgeAxes K (fieldNum K sq) (@Iso3.invMul K (fieldNum K sq) p1 p2),
+      @V3.dot K (fieldNum K sq) a a = 0 ∨ @realEps K (fieldNum K sq) < @V3.norm K (fieldNum K sq) a) :
+    letI := fieldNum K sq
+    queryIntersectionTest (fun m => intersectionTestCuboidCuboid m he1 he2) p1 p2 = true ↔
+      ∃ w : V3 K, Cuboid3.Mem ⟨he1⟩ (p1.invAct w) ∧ Cuboid3.Mem ⟨he2⟩ (p2.invAct w) := by
+  have hu := unit3_invMul sq p1 p2 h1 h2
+  show @intersectionTestCuboidCuboid K (fieldNum K sq) (@Iso3.invMul K (fieldNum K sq) p1 p2) he1 he2 = true ↔ _
+  rw [intersectionTestCuboidCuboid_true_iff sq _ he1 he2 hu hs hh1 hh2 hgen]
+  unfold CuboidsMeet
+  constructor
+  · rintro ⟨y, hy, hx⟩
+    refine ⟨@Iso3.act K (fieldNum K sq) p2 y, ?_, ?_⟩
+    · rw [← iso3_invMul_act sq p1 p2 y h1 h2]; exact hx
+    · rw [(iso3_invAct_act sq p2 y h2).1]; exact hy
+  · rintro ⟨w, hw1, hw2⟩
+    refine ⟨@Iso3.invAct K (fieldNum K sq) p2 w, hw2, ?_⟩
+    rw [iso3_invMul_act sq p1 p2 _ h1 h2, (iso3_invAct_act sq p2 w h2).2]; exact hw1
+
+example : Unit3 (⟨0, 0, 0, 1, ⟨1, -2, 3⟩⟩ : Iso3 ℚ) ∧ Unit3 (⟨0, 0, 1, 0, ⟨0, 0, 0⟩⟩ : Iso3 ℚ) := by unfold Unit3; norm_num
+
 end C03
